@@ -121,7 +121,9 @@ func decodeLit(a string) []int {
 }
 
 type ufCtx struct {
-	lits map[string][]int
+	lits       map[string][]int
+	consts     []string
+	constNames map[string]string
 }
 
 func (u *ufCtx) litName(a string) string {
@@ -181,6 +183,22 @@ func (u *ufCtx) rw(s *sx) *sx {
 			return out
 		}
 	}
+	// ((as const (Array K Str)) v) with a non-literal default: cvc5 wants a value there; use a named array with an axiom
+	if len(s.list) == 2 && s.list[0].isL && len(s.list[0].list) == 3 && s.list[0].list[0].atom == "as" && s.list[0].list[1].atom == "const" {
+		srt := u.rw(s.list[0].list[2])
+		dv := u.rw(s.list[1])
+		if strings.Contains(srt.String(), "Str") {
+			name := fmt.Sprintf("|constarr:%d|", len(u.consts))
+			key := srt.String() + "/" + dv.String()
+			if n, ok := u.constNames[key]; ok {
+				return &sx{atom: n}
+			}
+			u.constNames[key] = name
+			ks := srt.list[1].String()
+			u.consts = append(u.consts, fmt.Sprintf("(declare-const %s %s)\n(assert (forall ((i %s)) (! (= (select %s i) %s) :pattern ((select %s i)))))", name, srt.String(), ks, name, dv.String(), name))
+			return &sx{atom: name}
+		}
+	}
 	out := &sx{isL: true}
 	for _, c := range s.list {
 		out.list = append(out.list, u.rw(c))
@@ -207,14 +225,17 @@ const ufPrelude = `(declare-sort Str 0)
 (declare-fun s.w2 (Str Str Int) Int)
 (assert (= (s.len s.empty) 0))
 (assert (forall ((s Str)) (! (and (>= (s.len s) 0) (=> (= (s.len s) 0) (= s s.empty))) :pattern ((s.len s)))))
-; extensionality with a witness index
-(assert (forall ((a Str) (b Str)) (! (=> (and (= (s.len a) (s.len b)) (=> (and (<= 0 (s.w1 a b)) (< (s.w1 a b) (s.len a))) (= (s.code a (s.w1 a b)) (s.code b (s.w1 a b))))) (= a b)) :pattern ((s.len a) (s.len b)))))
+; extensionality with a witness index, triggered by the string equalities written in specifications (streq)
+(declare-fun streq (Str Str) Bool)
+(assert (forall ((a Str) (b Str)) (! (= (streq a b) (= a b)) :pattern ((streq a b)))))
+(assert (forall ((a Str) (b Str)) (! (=> (and (= (s.len a) (s.len b)) (=> (and (<= 0 (s.w1 a b)) (< (s.w1 a b) (s.len a))) (= (s.code a (s.w1 a b)) (s.code b (s.w1 a b))))) (= a b)) :pattern ((streq a b)))))
 ; concatenation
 (assert (forall ((a Str) (b Str)) (! (= (s.len (s.cat a b)) (+ (s.len a) (s.len b))) :pattern ((s.cat a b)))))
 (assert (forall ((a Str) (b Str) (i Int)) (! (and (=> (and (<= 0 i) (< i (s.len a))) (= (s.code (s.cat a b) i) (s.code a i))) (=> (and (<= (s.len a) i) (< i (+ (s.len a) (s.len b)))) (= (s.code (s.cat a b) i) (s.code b (- i (s.len a)))))) :pattern ((s.code (s.cat a b) i)))))
 (assert (forall ((a Str) (b Str) (i Int)) (! (=> (and (<= 0 i) (< i (s.len a))) (= (s.code (s.cat a b) i) (s.code a i))) :pattern ((s.cat a b) (s.code a i)))))
 (assert (forall ((a Str) (b Str) (i Int)) (! (=> (and (<= 0 i) (< i (s.len b))) (= (s.code (s.cat a b) (+ (s.len a) i)) (s.code b i))) :pattern ((s.cat a b) (s.code b i)))))
-(assert (forall ((a Str)) (! (and (= (s.cat a s.empty) a) (= (s.cat s.empty a) a)) :pattern ((s.len a)))))
+(assert (forall ((a Str)) (! (= (s.cat a s.empty) a) :pattern ((s.cat a s.empty)))))
+(assert (forall ((a Str)) (! (= (s.cat s.empty a) a) :pattern ((s.cat s.empty a)))))
 ; substring (SMT-LIB semantics)
 (assert (forall ((s Str) (i Int) (n Int)) (! (ite (and (<= 0 i) (< i (s.len s)) (> n 0)) (= (s.len (s.sub s i n)) (ite (<= n (- (s.len s) i)) n (- (s.len s) i))) (= (s.sub s i n) s.empty)) :pattern ((s.sub s i n)))))
 (assert (forall ((s Str) (i Int) (n Int) (k Int)) (! (=> (and (<= 0 i) (<= 0 k) (< k (s.len (s.sub s i n)))) (= (s.code (s.sub s i n) k) (s.code s (+ i k)))) :pattern ((s.code (s.sub s i n) k)))))
@@ -224,6 +245,11 @@ const ufPrelude = `(declare-sort Str 0)
 (assert (forall ((s Str) (t Str) (j Int)) (! (=> (s.occ s t j) (and (<= 0 j) (<= (+ j (s.len t)) (s.len s)))) :pattern ((s.occ s t j)))))
 (assert (forall ((s Str) (t Str) (j Int) (k Int)) (! (=> (and (s.occ s t j) (<= 0 k) (< k (s.len t))) (= (s.code s (+ j k)) (s.code t k))) :pattern ((s.occ s t j) (s.code t k)))))
 (assert (forall ((s Str) (t Str) (j Int)) (! (=> (and (<= 0 j) (<= (+ j (s.len t)) (s.len s)) (=> (and (<= 0 (s.w2 s t j)) (< (s.w2 s t j) (s.len t))) (= (s.code s (+ j (s.w2 s t j))) (s.code t (s.w2 s t j))))) (s.occ s t j)) :pattern ((s.occ s t j)))))
+; substring equality is an occurrence; occurrences shift under substrings
+(assert (forall ((s Str) (t Str) (j Int) (n Int)) (! (=> (and (streq (s.sub s j n) t) (= n (s.len t)) (<= 0 j) (<= (+ j n) (s.len s))) (s.occ s t j)) :pattern ((streq (s.sub s j n) t)))))
+(assert (forall ((s Str) (t Str) (j Int)) (! (=> (s.occ s t j) (= (s.sub s j (s.len t)) t)) :pattern ((s.occ s t j)))))
+(assert (forall ((s Str) (t Str) (j Int) (a Int) (n Int)) (! (=> (and (s.occ (s.sub s a n) t j) (<= 0 a)) (s.occ s t (+ a j))) :pattern ((s.occ (s.sub s a n) t j)))))
+(assert (forall ((s Str) (t Str) (j Int) (a Int) (n Int)) (! (=> (and (s.occ s t j) (<= 0 a) (<= a j) (<= (+ j (s.len t)) (+ a n)) (<= (+ a n) (s.len s))) (s.occ (s.sub s a n) t (- j a))) :pattern ((s.occ s t j) (s.sub s a n)))))
 ; prefix / suffix
 (assert (forall ((p Str) (s Str)) (! (= (s.pre p s) (s.occ s p 0)) :pattern ((s.pre p s)))))
 (assert (forall ((p Str) (s Str)) (! (= (s.suf p s) (and (<= (s.len p) (s.len s)) (s.occ s p (- (s.len s) (s.len p))))) :pattern ((s.suf p s)))))
@@ -237,11 +263,14 @@ const ufPrelude = `(declare-sort Str 0)
 
 // toUF rewrites a native-string query into the UF encoding.
 func toUF(query string) string {
-	u := &ufCtx{lits: map[string][]int{}}
+	u := &ufCtx{lits: map[string][]int{}, constNames: map[string]string{}}
 	forms := parseSx(query)
 	var body strings.Builder
 	for _, f := range forms {
 		if f.isL && len(f.list) > 0 && (f.list[0].atom == "set-logic" || f.list[0].atom == "set-option") {
+			continue
+		}
+		if f.isL && len(f.list) > 1 && f.list[0].atom == "define-fun" && f.list[1].atom == "streq" {
 			continue
 		}
 		body.WriteString(u.rw(f).String())
@@ -262,6 +291,17 @@ func toUF(query string) string {
 			fmt.Fprintf(&sb, "(assert (= (s.code %s %d) %d))\n", n, i, c)
 		}
 	}
-	sb.WriteString(body.String())
+	// named constant arrays must be declared after the sorts they use: split the body after the last datatype declaration
+	b := body.String()
+	cut := 0
+	if i := strings.LastIndex(b, "(declare-datatypes"); i >= 0 {
+		cut = i + strings.Index(b[i:], "\n") + 1
+	}
+	sb.WriteString(b[:cut])
+	for _, c := range u.consts {
+		sb.WriteString(c)
+		sb.WriteByte('\n')
+	}
+	sb.WriteString(b[cut:])
 	return sb.String()
 }
